@@ -370,6 +370,62 @@ fn frontend_subsets(cfg: &Cfg, rng: &mut Rng) {
 
 /// Orders on the frontend: API call sequences over the negotiation calls with a gated probe at
 /// the end of every prefix.
+/// Server side of the same: with every protocol-feature bit acknowledged except the request's own
+/// one it is rejected; with only its own bit it is dispatched.
+fn server_complement(cfg: &Cfg, rng: &mut Rng) {
+    for (pi, p) in gated_probes(rng).iter().enumerate() {
+        let Some(gate) = p.gate_pf() else { continue };
+        if !cfg.mine(pi as u64) {
+            continue;
+        }
+        for (pf, admitted) in [(!gate, false), (gate, true), (!gate & ((1 << 22) - 1), false)] {
+            let (peer, mut srv, be) = util::raw_server(Script { protocol_features: u64::MAX, features: spec::VIRTIO_F_PROTOCOL_FEATURES | 3, ..Script::default() });
+            util::raw_negotiate(&peer, &mut srv, spec::VIRTIO_F_PROTOCOL_FEATURES | 1, pf);
+            let obs = match c04::send_sym(&peer, &mut srv, &be, &sym(p.clone()), spec::VIRTIO_F_PROTOCOL_FEATURES | 3) {
+                Ok(o) => o,
+                Err(pn) => {
+                    report::violation(&format!("C07:srv:{}:panic", p.name()), jo! {"panic" => pn.msg, "at" => pn.location}, cfg.replay(&format!("srvcomp:{pi}")));
+                    return;
+                }
+            };
+            report::eval(1);
+            report::count("srv.complement_probes", 1);
+            report::distinct(report::hash_mix(pf, report::hash_str(&p.name())));
+            let called = obs.handler_calls.len();
+            let ok = if admitted { called == 1 } else { called == 0 && obs.result.starts_with("Err") };
+            if !ok {
+                report::violation(
+                    &format!("C07:srv:{}:{}", p.name(), if admitted { "negotiated-but-not-dispatched" } else { "dispatched-without-feature" }),
+                    jo! {"acked_protocol_features" => J::x64(pf), "own_feature_bit" => J::x64(gate), "request" => p.j(), "handler_calls" => called, "handle_request" => obs.result.as_str()},
+                    cfg.replay(&format!("srvcomp:{pi}")),
+                );
+            }
+            let mut o = obs;
+            for m in o.msgs.iter_mut() {
+                m.close_fds();
+            }
+        }
+    }
+}
+
+/// The gate of an operation is *its* feature bit and no other: with every bit of the 64-bit word
+/// acknowledged except the operation's own one it must be refused; with only its own bit it must pass.
+fn frontend_complement(cfg: &Cfg, rng: &mut Rng) {
+    for (oi, op) in fe_probe_ops(rng).iter().enumerate() {
+        let Some(gate) = op.gate_pf() else { continue };
+        if !cfg.mine(oi as u64) {
+            continue;
+        }
+        for acked_pf in [!gate, gate, !gate & ((1 << 22) - 1)] {
+            let st = FeState { offered_virtio_pf: true, acked_virtio_pf: true, acked_pf };
+            let (mut f, peer) = fe_setup(&st, u64::MAX);
+            report::distinct(report::hash_mix(acked_pf, report::hash_str(op.name())));
+            report::count("fe.complement_probes", 1);
+            fe_probe(cfg, &mut f, &peer, op, &st, &format!("fecomp:{oi}"), rng);
+        }
+    }
+}
+
 fn frontend_orders(cfg: &Cfg, rng: &mut Rng) {
     let probes = fe_probe_ops(rng);
     // alphabet: 0 get_features(offer PF) 1 get_features(no PF) 2 set_features(PF) 3 set_features(no PF)
@@ -497,6 +553,8 @@ pub fn run(cfg: &Cfg) {
         ("offer", reply_ack_offer),
         ("fe", frontend_subsets),
         ("feorder", frontend_orders),
+        ("fecomp", frontend_complement),
+        ("srvcomp", server_complement),
         ("proxy", proxy_gates),
     ];
     for (name, f) in parts {
